@@ -340,6 +340,7 @@ type GenOptions struct {
 	ValueTypes  bool
 	StubRefs    bool // a service may reference a node type it contributes no field to
 	Wild        bool // include shapes known to hit open findings (services without node, ...)
+	WriteOnly   bool // a service other than the first may declare NO query field besides the relay `node` (it owns mutations and fields of Node types only)
 }
 
 func DefaultGen() GenOptions {
@@ -510,7 +511,12 @@ func Generate(r *hx.Rand, o GenOptions) *Spec {
 	}
 	qn := 0
 	for svc := 0; svc < s.NumServices; svc++ {
-		for k := 0; k < r.Range(1, 3); k++ {
+		nq := r.Range(1, 3)
+		writeOnly := o.WriteOnly && svc > 0 && r.Chance(1, 2)
+		if writeOnly {
+			nq = 0
+		}
+		for k := 0; k < nq; k++ {
 			var ty string
 			var args []ArgSpec
 			cands := rootTypes(svc)
@@ -543,7 +549,7 @@ func Generate(r *hx.Rand, o GenOptions) *Spec {
 			s.Query = append(s.Query, FieldSpec{Name: fmt.Sprintf("q%d", qn), Type: ty, Args: args, Owner: svc})
 			qn++
 		}
-		if o.Mutations && r.Chance(1, 2) {
+		if o.Mutations && (r.Chance(1, 2) || writeOnly) {
 			for k := 0; k < r.Range(1, 2); k++ {
 				ty := "Int!"
 				if r.Chance(1, 3) {
